@@ -47,6 +47,7 @@ Definition tok_plain (t : string) : bool :=
   | String c r =>
       if is_digit c then canonical_nat t
       else if is_lower_c c then all_chars word_char t
+      else if is_upper c then all_chars is_upper t            (* Enum member names *)
       else if Ascii.eqb c "-"%char then
         String.eqb t "-h"
         || (prefixb "--" t && Nat.ltb 2 (String.length t)
@@ -60,6 +61,7 @@ Definition class_plain (c : dcls) : bool :=
   forallb (fun fd => name_plain (f_name fd)
                      && match f_kind fd with
                         | FSub alts dkey => str_in dkey (map a_key alts) && forallb (fun a => name_plain (a_fname a)) alts
+                        | FEnum _ e fo => negb fo && forallb (fun m => all_chars is_upper (fst m) && negb (String.eqb (fst m) "")) (e_members e)
                         | _ => true
                         end) (d_fields c).
 
@@ -107,4 +109,10 @@ Fixpoint scope_from (ftbl : list (string * kv)) (s : state) (ops : list op) : bo
   | [] => true
   | o :: r => op_in_scope ftbl s o && scope_from ftbl (fst (step_gen ftbl s o)) r
   end.
-Definition in_scope (c : case) : bool := scope_from c.(c_files) init c.(c_ops).
+(* e_id stands for the identity of the class object: one id, one class *)
+Definition case_enums (ops : list op) : list enumdef :=
+  flat_map (fun o => match o with AddArgs _ d dest => enums_of [(d, dest)] | _ => [] end) ops.
+Definition ids_consistent (es : list enumdef) : bool :=
+  forallb (fun a => forallb (fun b => negb (Nat.eqb (e_id a) (e_id b)) || enum_eqb a b) es) es.
+Definition in_scope (c : case) : bool :=
+  scope_from c.(c_files) init c.(c_ops) && ids_consistent (case_enums c.(c_ops)).
